@@ -14,7 +14,7 @@ RULE = ("G1 specs with log-weights (recursive specs: real weights in {0,.1,.25,.
         "the chosen rule had a competitor with a different value; distinct by case hash")
 ASSUMPTIONS = ["log-weights <= 0 for recursive specs (finite, attained maximum)", "float64",
                "weight tolerance 1e-9*(1+|w|)"]
-ESSENTIAL_LABELS = ['recursive', 'edgeless-external', 'disconnected-internal', 'all-attached-external',
+ESSENTIAL_LABELS = ['patterned-weight', 'recursive', 'edgeless-external', 'disconnected-internal', 'all-attached-external',
                     'repeated-attachment', 'size1-domain', 'deriv>=2', 'competitor']
 
 
@@ -26,10 +26,14 @@ def budget(tier):
 def cases(draw, tier):
     rec = draw(st.booleans())
     if rec:
-        spec = draw(gen_fgg.specs(recursive=True, weights=(0.0, 0.1, 0.25, 0.5, 0.5, 1.0, 1.0), max_nts=3,
-                                  max_dom=3, max_edges=3, max_nodes=5))
+        wts = (0.0, 0.1, 0.25, 0.5, 0.5, 1.0, 1.0)
+        base = gen_fgg.specs(recursive=True, weights=wts, max_nts=3, max_dom=3 if tier == 'quick' else 4, max_edges=3, max_nodes=5,
+                             nt_arities=(0, 1, 1, 2, 3), start_arity=(0, 0, 1, 2, 3))
     else:
-        spec = draw(gen_fgg.specs(recursive=False, weights=(0.0, 0.1, 0.25, 0.5, 1.0, 2.0, 3.0), max_nts=4, max_dom=3))
+        wts = (0.0, 0.1, 0.25, 0.5, 1.0, 2.0, 3.0)
+        base = gen_fgg.specs(recursive=False, weights=wts, max_nts=4, max_dom=3 if tier == 'quick' else 4,
+                             nt_arities=(0, 1, 1, 2, 3), start_arity=(0, 0, 1, 2, 3))
+    spec = draw(gen_fgg.patterned(base, weights=wts) if draw(st.integers(0, 2)) == 0 else base)
     return {'spec': spec}
 
 
